@@ -28,6 +28,7 @@ import (
 	"go/ast"
 	"go/token"
 	"go/types"
+	"sort"
 	"strings"
 )
 
@@ -113,12 +114,15 @@ func (fc *fnCtx) k11bIdent(name string, t types.Type, pos token.Pos) *ast.Ident 
 	return id
 }
 
-// k11bParams: the abstract parameters go in front of the ordinary ones (declaration order)
+// k11bParams: the abstract parameters go in front of the ordinary ones
 func (fc *fnCtx) k11bParams(params []string) []string {
 	env := k11bEnv[fc]
 	if len(env) == 0 {
 		return params
 	}
+	// sorted by name: the parameter order must not depend on the order in which the Go statements mention them
+	env = append([]k11bEnvParam{}, env...)
+	sort.Slice(env, func(i, j int) bool { return env[i].name < env[j].name })
 	var out []string
 	for _, e := range env {
 		out = append(out, fmt.Sprintf("(%s : %s)", leanIdent(e.name), e.lt))
